@@ -103,3 +103,6 @@ M["M15_emptied_dataset_written_drill_style"] = ("fastparquet/api.py", '''       
                                      else self.file_scheme),
 ''', '''                        file_scheme=self.file_scheme,
 ''', "M")
+M["M16_rename_needs_fs_object"] = ("fastparquet/api.py", '''        rename = self.fs.rename if hasattr(self, 'fs') else os.rename
+''', '''        rename = self.fs.rename
+''', "M")
